@@ -27,6 +27,14 @@ CLAIMS["C16"] = dict(
     technique="Kani/CBMC full-domain functional contracts on table accessors and step helpers + code-independent spec self-check lemmas",
 )
 
+CLAIMS["C15"] = dict(
+    category="proof",
+    text="Decomposed proof. Deductive (Kani, real tables): for every square and every 64-bit occupancy the magic index is in bounds and the stored mask equals the relevant-square set; code-independent frame lemma walk(sq,occ)==walk(sq,occ&relevant); full per-square proofs of lookup==ray walk over all 2^64 occupancies on the real 104960-entry table for 2 seed-chosen (piece,square) instances per quick run and all 128 in the thorough tier. Non-deductive and reported separately: complete native enumeration of every subset of the relevant squares for all squares, in the default and the +bmi2 build.",
+    design_ref="DESIGN.md §6 C15",
+    note=TRUST + "quick tier: the table CONTENT for 126 of the 128 (piece,square) pairs is decided by exhaustive native enumeration, not deduction (thorough tier proves all 128 deductively); the BMI2 configuration is decided by enumeration only (no verifier model of pext/pdep).",
+    technique="Kani/CBMC per-square full-domain proofs on the real magic table + index/mask contracts + spec frame lemma; exhaustive native subset enumeration (both build configurations) reported as non-deductive",
+)
+
 NOT_YET = {}
 
 
